@@ -6,7 +6,7 @@ representative subset of those harnesses is re-run here as part of C11."""
 
 def jobs(tier):
     from . import c01, c05, c09, c07
-    pick = lambda js, names, k: [j for j in js if j[0].__name__ in names][:k]
+    pick = lambda js, names, k: [j for j in js if j[0].__name__ in names and True not in j[1][4:]][:k]      # not the 'degenerate' variants (known finding of C05)
     out = []
     out += pick(c01.jobs(tier), ('h_next_range', 'h_next_array', 'h_indexed_nextcarry'), 30)
     out += pick(c05.jobs(tier), ('h_flatten_offsets', 'h_none2empty', 'h_localindex'), 30)
